@@ -96,6 +96,93 @@ def len_checked(f, bb, coll_local):
     return False
 
 
+def _len_locals(f, bases):
+    """locals holding the length of (a view of) one of the base collections: len() results and PtrMetadata / Len rvalues"""
+    out = set()
+    for c in f.live_calls():
+        if c.name == "len" and c.dst and c.args and "p" in c.args[0] and base_locals(f, c.args[0]["p"][0]) & bases:
+            out.add(c.dst[0])
+    for bb, x in f.stmts():
+        if x.get("k") == "unop" and x.get("op") == "PtrMetadata" and x["o"] and "p" in x["o"][0] and base_locals(f, x["o"][0]["p"][0]) & bases:
+            out.add(x["d"][0])
+        if x.get("k") == "len" and x.get("o") and "p" in x["o"][0] and base_locals(f, x["o"][0]["p"][0]) & bases:
+            out.add(x["d"][0])
+    # copies
+    changed = True
+    while changed:
+        changed = False
+        for bb, x in f.stmts():
+            if x.get("k") in ("use", "cast") and len(x["d"]) == 1 and x["o"] and "p" in x["o"][0] and x["o"][0]["p"] == [x["o"][0]["p"][0]] and x["o"][0]["p"][0] in out and x["d"][0] not in out:
+                out.add(x["d"][0])
+                changed = True
+    return out
+
+
+def len_lower_bound(f, bb, coll_local):
+    """the least length of the collection that the dominating branch conditions guarantee at block bb (0 if nothing is known):
+    `len() >= k`, `len() > k`, `len() == k`, `len() != 0`, `!is_empty()` and their mirrored / negated forms, on the edge actually taken"""
+    bases = base_locals(f, coll_local)
+    lens = _len_locals(f, bases)
+    dom = f.dominators()[bb]
+    best = 0
+    for w in dom:
+        t = f.term(w)
+        if t["k"] != "switch" or w == bb:
+            continue
+        dl = A._opl(t["discr"])
+        if dl is None:
+            continue
+        # which way did we come? the successor of w that dominates bb (or is bb)
+        taken = [s_ for s_ in f.succs()[w] if s_ == bb or s_ in dom]
+        if len(taken) != 1:
+            continue
+        tg = dict((v, b) for v, b in t["targets"])
+        vals = [v for v, b in tg.items() if b == taken[0]]
+        if len(vals) == 1 and t["otherwise"] != taken[0]:
+            truth = vals[0] != 0
+        elif not vals and t["otherwise"] == taken[0] and set(tg) == {0}:
+            truth = True
+        elif not vals and t["otherwise"] == taken[0] and set(tg) == {1}:
+            truth = False
+        else:
+            continue
+        # peel negations
+        cur = dl
+        for _ in range(4):
+            ds = [x for b2, k2, x in f.defs().get(cur, []) if k2 == "stmt"]
+            if len(ds) == 1 and ds[0].get("k") == "unop" and ds[0].get("op") == "Not" and "p" in ds[0]["o"][0]:
+                truth = not truth
+                cur = ds[0]["o"][0]["p"][0]
+            elif len(ds) == 1 and ds[0].get("k") in ("use",) and "p" in ds[0]["o"][0] and len(ds[0]["o"][0]["p"]) == 1:
+                cur = ds[0]["o"][0]["p"][0]
+            else:
+                break
+        lb = None
+        for b2, k2, x in f.defs().get(cur, []):
+            if k2 == "stmt" and x.get("k") == "binop" and x["op"] in ("Lt", "Le", "Gt", "Ge", "Eq", "Ne") and len(x["o"]) == 2:
+                a, b = x["o"]
+                op = x["op"]
+                if "p" in a and a["p"][0] in lens and "c" in b and "int" in b["c"]:
+                    k = b["c"]["int"]
+                elif "p" in b and b["p"][0] in lens and "c" in a and "int" in a["c"]:
+                    k = a["c"]["int"]
+                    op = {"Lt": "Gt", "Le": "Ge", "Gt": "Lt", "Ge": "Le", "Eq": "Eq", "Ne": "Ne"}[op]   # mirror: k op len  ==  len op' k
+                else:
+                    continue
+                if not truth:
+                    op = {"Lt": "Ge", "Le": "Gt", "Gt": "Le", "Ge": "Lt", "Eq": "Ne", "Ne": "Eq"}[op]
+                lb = {"Ge": k, "Gt": k + 1, "Eq": k}.get(op)
+                if op == "Ne" and k == 0:
+                    lb = 1
+            elif k2 == "call" and x.name == "is_empty" and x.args and "p" in x.args[0] and base_locals(f, x.args[0]["p"][0]) & bases:
+                lb = 1 if not truth else None
+            elif k2 == "call" and x.name in ("ge", "gt", "eq", "ne", "lt", "le") and len(x.args) == 2:
+                pass
+        if lb is not None:
+            best = max(best, lb)
+    return best
+
+
 def classify_call(prog, f, c):
     """returns (is_site, discharge reason or None)"""
     r = c.resolved or ""
@@ -193,6 +280,20 @@ def classify_assert(prog, f, bb, t):
                         for o in x.get("o", []):
                             if "p" in o:
                                 colls.add(o["p"][0])
+                kconst = None
+                if "c" in ix and "int" in ix["c"]:
+                    kconst = ix["c"]["int"]
+                elif "p" in ix and len(ix["p"]) == 1:
+                    ds = [x for b2, k2, x in f.defs().get(ix["p"][0], []) if k2 == "stmt"]
+                    if len(ds) == 1 and ds[0].get("k") == "use" and ds[0]["o"] and "c" in ds[0]["o"][0] and "int" in ds[0]["o"][0]["c"] and len(f.defs().get(ix["p"][0], [])) == 1:
+                        kconst = ds[0]["o"][0]["c"]["int"]
+                if kconst is not None:
+                    # constant index k: the dominating conditions must guarantee len > k (an `!is_empty()` covers index 0 only)
+                    k = kconst
+                    for coll in colls:
+                        if len_lower_bound(f, bb, coll) >= k + 1:
+                            return True, "constant index %d below the length guaranteed by the dominating check" % k
+                    return True, None
                 for coll in colls:
                     if len_checked(f, bb, coll):
                         return True, "index guarded by a dominating length check on the same collection"
